@@ -29,7 +29,7 @@ def define(name, src):
 
 
 def uninterpreted(name, arity, result="val"):
-    """Declare an uninterpreted spec function (result kind: val | bool | int)."""
+    """Declare an uninterpreted spec function (result kind: val | str | bool | int; str = val known to be a string)."""
     UNINTERPRETED[name] = (arity, result)
 
 
